@@ -251,7 +251,8 @@ def token_procs(trace):
             continue
         k = name[3:]
         if k == "setup":
-            procs[pid] = ("top" if a[1] == "own" else "sub", [])
+            # "exttop": inherited token pipe but own cheat pipe — the top of a redo tree under a foreign (make) jobserver
+            procs[pid] = ("top" if a[1] == "own" else ("exttop" if len(a) > 3 and a[3] == "1" else "sub"), [])
             continue
         if pid not in procs:
             continue
